@@ -23,7 +23,7 @@ Proof. exact Conn.start_split. Qed.
 Theorem c05_allocated_is_inert : forall (f : fixes) (evs : list ev) (o : nat) (c : cop), getop (run f evs) o = Some c -> o_status c = CAlloc -> inert c.
 Proof. exact ConnAlloc.reachable_alloc_inert. Qed.
 
-Theorem c05_held_operation_untouched : forall (s : st) (e : ev) (o : nat) (c : cop), getop s o = Some c -> inert c -> e <> Enqueue o -> getop (step s e) o = Some c.
+Theorem c05_held_operation_untouched : forall (s : st) (e : ev) (o : nat) (c : cop), getop s o = Some c -> inert c -> e <> Enqueue o -> e <> DropCall o -> getop (step s e) o = Some c.
 Proof. exact ConnAlloc.alloc_untouched. Qed.
 
 Theorem c05_crossed_starts : let r1 := mkResp 1 RDone 11 in let r2 := mkResp 2 RDone 22 in let s := run as_is [Alloc KSingle None; Alloc KSingle None; Enqueue 1; Enqueue 0; DrvOp; DrvOp; ServerSend r1; ServerSend r2; DrvResp; DrvResp; CliPoll 0; CliPoll 1] in map fst (wout s) = [2; 1] /\ option_map o_status (getop s 0%nat) = Some (COk (Some r1)) /\ option_map o_status (getop s 1%nat) = Some (COk (Some r2)) /\ inuse s = [].
